@@ -62,7 +62,12 @@ Now       == 36              \* 2020-01-04 12:00
 Fut       == 108             \* 2020-01-07 12:00
 MaxPaths  == 50000
 
-HourFiles == { [k |-> "h", n |-> h] : h \in {Past, 1, 2, 23, 24, 25, Fut} }
+\* MonthBack / MonthFwd: partitions just inside the CALENDAR month bounds around the clock (2020-01-04 12:00):
+\* now - 1 month = 2019-12-04 12:00 = Now - 744 h (December has 31 days), now + 1 month = 2020-02-04 12:00 =
+\* Now + 744 h; 30-day arithmetic would give Now -/+ 720 h.  MonthBack = Now - 736 h, MonthFwd = Now + 734 h.
+MonthBack == -700
+MonthFwd  == 770
+HourFiles == { [k |-> "h", n |-> h] : h \in {Past, 1, 2, 23, 24, 25, Fut, MonthBack, MonthFwd} }
 DayFiles  == { [k |-> "d", n |-> d] : d \in {0, 1} }
 Files     == HourFiles \cup DayFiles
 
@@ -74,13 +79,18 @@ Et(r) == r.t + 48
 Layouts == { L \in SUBSET Files : Cardinality(L) \in 1..MaxFiles } \cup {Files}
 
 -----------------------------------------------------------------------------
-Atoms == { [k |-> "T", op |-> o[1], c |-> o[2], c2 |-> 0] :
+\* R atoms: time <op> NOW() -/+ INTERVAL 'n u'; c = the CALENDAR offset in hours at the fixed clock (c < 0: NOW() + ..)
+\* unit classes: hours, and months (calendar arithmetic: evaluateRelativeTime uses AddDate, DuckDB likewise);
+\* days and weeks are fixed-length in UTC and rendered by the driver as alternatives of the hour atoms' amounts
+RAtom(op, c, u, n) == [k |-> "R", op |-> op, c |-> c, c2 |-> 0, u |-> u, n |-> n]
+Atoms == { [k |-> "T", op |-> o[1], c |-> o[2], c2 |-> 0, u |-> "", n |-> 0] :
               o \in {<<"ge", 2>>, <<"ge", 24>>, <<"gt", 2>>, <<"lt", 24>>, <<"lt", 25>>, <<"le", 24>>} }
-         \cup { [k |-> "B", op |-> "between", c |-> 2, c2 |-> 24] }
-         \cup { [k |-> "S", op |-> o[1], c |-> o[2], c2 |-> 0] : o \in {<<"ge", 24>>, <<"lt", 24>>} }
-         \cup { [k |-> "O", op |-> "eq", c |-> 1, c2 |-> 0] }
-         \cup { [k |-> "R", op |-> o[1], c |-> o[2], c2 |-> 0] : o \in {<<"ge", 13>>, <<"lt", 11>>} }   \* now-13h = 23, now-11h = 25
-         \cup { [k |-> "Z", op |-> o[1], c |-> o[2], c2 |-> 0] : o \in {<<"ge", 23>>, <<"lt", 23>>} }
+         \cup { [k |-> "B", op |-> "between", c |-> 2, c2 |-> 24, u |-> "", n |-> 0] }
+         \cup { [k |-> "S", op |-> o[1], c |-> o[2], c2 |-> 0, u |-> "", n |-> 0] : o \in {<<"ge", 24>>, <<"lt", 24>>} }
+         \cup { [k |-> "O", op |-> "eq", c |-> 1, c2 |-> 0, u |-> "", n |-> 0] }
+         \cup { RAtom("ge", 13, "hours", 13), RAtom("lt", 11, "hours", 11),          \* now-13h = 23, now-11h = 25
+                RAtom("ge", 744, "months", 1), RAtom("lt", -744, "months", 1) }      \* now -/+ 1 calendar month
+         \cup { [k |-> "Z", op |-> o[1], c |-> o[2], c2 |-> 0, u |-> "", n |-> 0] : o \in {<<"ge", 23>>, <<"lt", 23>>} }
 
 Leaf(a)      == [op |-> "atom", a |-> a]
 Not(t)       == [op |-> "not", l |-> t]
@@ -135,8 +145,13 @@ Extract(tree) ==
         ilt == First(ls, LAMBDA l : IsLit(l, "lt"))
         ile == First(ls, LAMBDA l : IsLit(l, "le"))
         ib  == First(ls, LAMBDA l : l.a.k = "B")
-        irs == First(ls, LAMBDA l : l.a.k = "R" /\ l.a.op \in {"ge", "gt"})
-        ire == First(ls, LAMBDA l : l.a.k = "R" /\ l.a.op \in {"lt", "le"})
+        \* the NOW() - INTERVAL pattern is tried before the NOW() + INTERVAL pattern
+        irsS == First(ls, LAMBDA l : l.a.k = "R" /\ l.a.op \in {"ge", "gt"} /\ l.a.c >= 0)
+        irsA == First(ls, LAMBDA l : l.a.k = "R" /\ l.a.op \in {"ge", "gt"} /\ l.a.c < 0)
+        ireS == First(ls, LAMBDA l : l.a.k = "R" /\ l.a.op \in {"lt", "le"} /\ l.a.c >= 0)
+        ireA == First(ls, LAMBDA l : l.a.k = "R" /\ l.a.op \in {"lt", "le"} /\ l.a.c < 0)
+        irs == IF irsS # 0 THEN irsS ELSE irsA
+        ire == IF ireS # 0 THEN ireS ELSE ireA
         s0  == IF ige # 0 THEN Src(ls[ige], ls[ige].a.c) ELSE IF igt # 0 THEN Src(ls[igt], ls[igt].a.c) ELSE NoSrc
         e0  == IF ilt # 0 THEN Src(ls[ilt], ls[ilt].a.c) ELSE IF ile # 0 THEN Src(ls[ile], ls[ile].a.c) ELSE NoSrc
         s1  == IF ib # 0 THEN Src(ls[ib], ls[ib].a.c)  ELSE s0
@@ -211,6 +226,7 @@ NeededSubsetPruned == st.phase = "done" => st.bad = {}
 FileName(f) == IF f.k = "d" THEN (IF f.n = 0 THEN "d0" ELSE "d1")
                ELSE CASE f.n = Past -> "hP" [] f.n = Fut -> "hF" [] f.n = 1 -> "h1" [] f.n = 2 -> "h2"
                       [] f.n = 23 -> "h23" [] f.n = 24 -> "h24" [] f.n = 25 -> "h25"
+                      [] f.n = MonthBack -> "hM" [] f.n = MonthFwd -> "hN"
 Names(S) == { FileName(f) : f \in S }
 Case(L) == [files |-> Names(L), pruned |-> Names(Pruned(st.x, L)), needed |-> Names(Needed(st.tree, st.w, L)),
             lost |-> { [file |-> FileName(f), why |-> Blame(st.x, st.w, f)] : f \in Lost(st.tree, st.w, st.x, L) },
